@@ -1,6 +1,6 @@
 Require Import ExtrOcamlBasic.
-Require Import GV.Model.C01_io.
-Definition vp_run := c01_run_z.
-Definition vp_check := c01_check.
-Definition vp_nontriv := c01_nontriv.
+Require Import GV.Model.C01_io GV.Model.C01a_io.
+Definition vp_run := c01x_run.
+Definition vp_check := c01x_check.
+Definition vp_nontriv := c01x_nontriv.
 Extraction "model.ml" vp_run vp_check vp_nontriv.
